@@ -27,9 +27,13 @@ structure Res where
   nontrivial : Bool
   model : String
   note : String := ""
+  /-- when the monitor fails inside the trigger predicate of a recorded finding: its slug -/
+  finding : String := ""
 
 def Res.render (r : Res) : String :=
-  let st := if r.agree && r.monitor then "ok" else if r.monitor then "diff" else if r.agree then "monfail" else "both"
+  let st := if r.agree && r.monitor then "ok" else if r.monitor then "diff"
+    else if r.agree && r.finding != "" then s!"known:{r.finding}"
+    else if r.agree then "monfail" else "both"
   s!"{st}|{if r.nontrivial then 1 else 0}|{r.model}|{r.note}"
 
 def joinComma (xs : List String) : String := ",".intercalate xs
